@@ -163,6 +163,11 @@ class _Norm(Normalizer):
         tr = type_range(ct)
         if tr is not None and is_unsigned(ct) and not result.is_const():
             lo, hi = result.range(lambda a: self.flow.bounds(self.s, a))
+            # a comparison known to hold on this path (path constraint) may exclude the wrap: x - y with y <= x
+            if lo < tr[0] and self.s.get(('pc', Rel.make(result, '>=', tr[0]))):
+                lo = tr[0]
+            if hi > tr[1] and self.s.get(('pc', Rel.make(result, '<=', tr[1]))):
+                hi = tr[1]
             if lo < tr[0] or hi > tr[1]:
                 self.modular.append((n, result.show()))
         return result
@@ -195,6 +200,10 @@ class Flow:
                 return (1, INF)
             if atom[0] in ('local', 'temp', 'this'):
                 return (1, INF)
+            if atom[0] in ('min', 'max') and len(atom) == 3 and all(isinstance(x, Poly) for x in atom[1:]):
+                (alo, ahi), (blo, bhi) = (x.range(lambda a: self.bounds(s, a)) for x in atom[1:])
+                f = min if atom[0] == 'min' else max
+                return (f(alo, blo), f(ahi, bhi))
             if atom[0] == 'mod' and len(atom) == 3:
                 c = atom[2].as_int() if isinstance(atom[2], Poly) else None
                 lo, _hi = atom[1].range(lambda a: self.bounds(s, a)) if isinstance(atom[1], Poly) else (-INF, INF)
@@ -279,7 +288,17 @@ class Flow:
     def is_global_ref(self, n, fr):
         rd = n.get('referencedDecl', {})
         q = fr.tu.sd(n).get('q', '')
-        return rd.get('kind') == 'VarDecl' and '::' in q
+        if rd.get('kind') != 'VarDecl':
+            return False
+        if '::' in q:
+            return True
+        d = fr.tu.node(rd.get('id'))
+        return d is not None and d.get('storageClass') == 'static' or (d is not None and d.get('tls') is not None)
+
+    def global_name(self, n, fr):
+        """name of the persistent location a reference designates (function-local statics are prefixed by their function)"""
+        q = fr.tu.sd(n).get('q', '')
+        return q if '::' in q else '%s::%s' % (fr.fn['q'], q or n.get('referencedDecl', {}).get('name'))
 
     def loc_of(self, n, s, fr):
         """abstract location of an lvalue expression, or None"""
@@ -293,7 +312,7 @@ class Flow:
             if ('env', fr.key, rd.get('id')) in s.d:
                 return ('envvar', fr.key, rd.get('id'))
             if self.is_global_ref(n, fr):
-                return ('glob', tu.sd(n).get('q'))
+                return ('glob', self.global_name(n, fr))
             if rd.get('kind') in ('VarDecl', 'ParmVarDecl'):
                 return ('envvar', fr.key, rd.get('id'))
             return None
@@ -350,7 +369,7 @@ class Flow:
                 return c
             if self.is_global_ref(n, fr):
                 ct = sd.get('ct', '')
-                return self.load(('glob', sd.get('q')), s, ct, 'volatile' in ct)
+                return self.load(('glob', self.global_name(n, fr)), s, ct, 'volatile' in ct)
             a = ('var', fr.key, rd.get('id'), rd.get('name'))
             self.set_default(a, sd.get('ct'))
             return Poly.atom(a)
@@ -489,6 +508,18 @@ class Flow:
         c = fr.tu.node(blk.cond)
         if c is None:
             return [s]
+        # `A && B` / `A || B`: the CFG decides A in an earlier block; in the block that evaluates B the terminator condition
+        # is still the whole expression, but its value there is the value of B
+        here = {e[1] for e in blk.el if e[0] == 'S'}
+        while True:
+            cs = fr.tu.strip(c)
+            if cs is None or cs.get('kind') != 'BinaryOperator' or cs.get('opcode') not in ('&&', '||'):
+                break
+            ks = fr.tu.kids(cs)
+            l0, l1 = ks[0], fr.tu.strip(ks[0])
+            if l0.get('id') in here or (l1 is not None and l1.get('id') in here):
+                break
+            c = ks[1]
         ws = self.wrap_sites(c, s, fr)
         if ws:
             # the comparison is computed with unsigned arithmetic that can wrap here: its mathematical reading is not the
@@ -543,7 +574,8 @@ class Flow:
                 atom, (lo, hi) = r.tighten(bnd, True)
                 if lo > hi:
                     return []
-                return [s.set(('fact', atom), (lo, hi))]
+                return self.propagate(s.set(('fact', atom), (lo, hi)), atom, lo, hi)
+            s = s.set(('pc', r), True)       # path constraint: known to hold on this path, not used for refinement
             if self.tracked(s, r):
                 return [s.approx('condition `%s` at %s is not a linear comparison of one value' % (fr.tu.show(node), fr.tu.loc(node)))]
             return [s]
@@ -567,6 +599,34 @@ class Flow:
             return [s]
         return [s]
 
+    def propagate(self, s, atom, lo, hi):
+        """consequences of lo <= atom <= hi for the operands of a min / max atom ([] = infeasible)"""
+        if not (isinstance(atom, tuple) and atom and atom[0] in ('min', 'max') and len(atom) == 3):
+            return [s]
+        ops = [x for x in atom[1:] if isinstance(x, Poly)]
+        if len(ops) != 2:
+            return [s]
+        bnd = lambda a: self.bounds(s, a)
+        for me, other in ((ops[0], ops[1]), (ops[1], ops[0])):
+            a = me.as_atom()
+            if a is None or not self.factable(a):
+                continue
+            alo, ahi = bnd(a)
+            olo, ohi = other.range(bnd)
+            if atom[0] == 'min':
+                alo = max(alo, lo)                 # min >= lo  =>  both operands >= lo
+                if olo > hi:
+                    ahi = min(ahi, hi)             # the other operand exceeds hi, so this one is the minimum
+            else:
+                ahi = min(ahi, hi)
+                if ohi < lo:
+                    alo = max(alo, lo)
+            if alo > ahi:
+                return []
+            if (alo, ahi) != bnd(a):
+                s = s.set(('fact', a), (alo, ahi))
+        return [s]
+
     @staticmethod
     def factable(atom):
         return not (isinstance(atom, tuple) and atom and atom[0] in ('volatile', 'unk', 'widen'))
@@ -585,6 +645,8 @@ class Flow:
                 for v in tu.kids(n):
                     if v.get('kind') != 'VarDecl':
                         continue
+                    if v.get('storageClass') == 'static' or v.get('tls') is not None:
+                        continue        # initialised once, persists across calls: a memory location, not a local
                     ks = tu.kids(v)
                     if v.get('init') and ks:
                         s = s.set(('env', fr.key, v['id']), self.val(ks[-1], s, fr))
@@ -728,6 +790,15 @@ class Flow:
 
         if q in IDENTITY_FNS and argv:
             return [s.set(rkey, argv[0])]
+        if q in ('std::min', 'std::max') and len(argv) == 2:
+            rng = [v.range(lambda a: self.bounds(s, a)) for v in argv]
+            name = q[5:]
+            # decided by the intervals?
+            if name == 'min' and rng[0][1] <= rng[1][0] or name == 'max' and rng[0][0] >= rng[1][1]:
+                return [s.set(rkey, argv[0])]
+            if name == 'min' and rng[1][1] <= rng[0][0] or name == 'max' and rng[1][0] >= rng[0][1]:
+                return [s.set(rkey, argv[1])]
+            return [s.set(rkey, Poly.op(name, argv[0], argv[1]))]
 
         if q in ('std::operator==', 'std::operator!=') and len(argv) == 2 and \
                 any((tu.sd(a).get('ct') or '').replace('const ', '').startswith(SMART) for a in args):
@@ -771,6 +842,16 @@ class Flow:
 
         # ---- smart pointers as pointer cells
         if sd.get('rec') in SMART:
+            if len(args) == 1 and (is_ctor or name == 'operator='):
+                src = tu.strip(args[0])
+                if src is not None and src.get('kind') == 'CallExpr' and tu.sd(src).get('q') == 'std::move':
+                    inner = tu.kids(src)[1:] if len(tu.kids(src)) > 1 else []
+                    if inner and (tu.sd(inner[0]).get('ct') or '').replace('const ', '').startswith(SMART) and \
+                            self.loc_of(inner[0], s, fr) is not None:
+                        # unique_ptr(std::move(cell)) / = std::move(cell): the source cell gives up its pointer
+                        moved = argv[0]
+                        s = self.assign(inner[0], Poly.const(0), s, fr, None, n)
+                        argv = (moved,)
             if is_ctor:
                 if not argv:
                     v = Poly.const(0)
